@@ -13,7 +13,7 @@ import (
 	"github.com/oauth2-proxy/oauth2-proxy/v7/pkg/clock"
 )
 
-//assume: C12.conc: two concurrent requests sharing one server-side session, store and lock healthy; the lock is a mutual-exclusion lock that does not expire while the provider answers; a thread finds the lock busy at most twice per request; the identity provider issues single-use rotating refresh tokens (a refresh succeeds iff it presents the current one) and validates sessions positively; the scenario is shorter than the refresh period; operations between two visible operations (store/lock/provider calls) touch only request-local state
+//assume: C12.conc: two (thorough tier: two or three) concurrent requests sharing one server-side session, store and lock healthy; the lock is a mutual-exclusion lock that does not expire while the provider answers; a thread finds the lock busy at most twice per request; the identity provider issues single-use rotating refresh tokens (a refresh succeeds iff it presents the current one) and validates sessions positively; the scenario is shorter than the refresh period; operations between two visible operations (store/lock/provider calls) touch only request-local state
 
 const vPeriod = time.Hour
 
@@ -112,7 +112,7 @@ func vh_C12_conc() {
 
 // ---------------------------------------------------------------------------
 // native driver for counterexample schedules (never executed symbolically):
-// two real loaders in goroutines against one shared in-memory store/lock/IdP,
+// the real loaders in goroutines against one shared in-memory store/lock/IdP,
 // visible operations serialised in the order of the solver's schedule.
 
 type vShared struct {
@@ -208,18 +208,19 @@ func (l *vSharedLock) Release(context.Context) error {
 
 // verif: tiers=none
 func vh_C12_conc_replay() {
-	n := ndChoice("schedule-len", 64)
+	nreq := 2 + ndChoice("requests", 2)
+	n := ndChoice("schedule-len", 96)
 	sh := &vShared{exists: true}
 	sh.cond = sync.NewCond(&sh.mu)
 	for i := 0; i < n; i++ {
-		sh.sched = append(sh.sched, ndChoice("who", 2))
+		sh.sched = append(sh.sched, ndChoice("who", 3))
 	}
 	clock.Set(time.Unix(1700000000, 0))
 	defer clock.Reset()
 	var wg sync.WaitGroup
-	served := make([]*sessionsapi.SessionState, 2)
-	stores := make([]*vSharedStore, 2)
-	for k := 0; k < 2; k++ {
+	served := make([]*sessionsapi.SessionState, nreq)
+	stores := make([]*vSharedStore, nreq)
+	for k := 0; k < nreq; k++ {
 		k := k
 		stores[k] = &vSharedStore{sh: sh, me: k}
 		refresher := func(_ context.Context, s *sessionsapi.SessionState) (bool, error) {
@@ -252,7 +253,7 @@ func vh_C12_conc_replay() {
 	}
 	wg.Wait()
 	ok := sh.refreshes <= 1
-	for k := 0; k < 2; k++ {
+	for k := 0; k < nreq; k++ {
 		if served[k] == nil {
 			ok = false
 			continue
